@@ -32,15 +32,15 @@ def fdict_sites(ck, P):
         ck.use_fn(hd)
         ok = False
         for b in hd.live:
-            t = hd.blocks[b]["t"]
-            if t["k"] == "switch" and mir.mentions_field(hd.operand_expr(t["discr"]), "strstart"):
-                # the non-zero side assigns PRESET_DICT
-                for lab, tb in hd.succ[b]:
-                    chain = atoms.straight_line(hd, tb, 3)
-                    for cb in chain:
-                        for s in hd.blocks[cb]["s"]:
-                            if s["k"] == "assign" and mir.mentions_const(hd.rvalue_expr(s["rv"]), defname="PRESET_DICT"):
-                                ok = (lab[0] == "else") or (lab[0] == "eq" and lab[1] != 0)
+            for st in hd.blocks[b]["s"]:
+                if st["k"] == "assign" and mir.mentions_const(hd.rvalue_expr(st["rv"]), defname="PRESET_DICT"):
+                    # whatever the spelling (match on strstart, `!= 0`, `== 0 .. else`): the assignment sits under strstart != 0
+                    for g in shape.dominating_sigs(hd, b):
+                        if "strstart" not in g.names:
+                            continue
+                        if (g.rel == "notin" and set(g.values or ()) == {0}) or (g.rel == "Ne" and 0 in g.consts) or \
+                                (g.rel == "Lt" and 0 in g.consts):
+                            ok = True
         ck.decide(ok, R, "header:FDICT", "FDICT set exactly when strstart != 0", "header() does not set FDICT under `strstart != 0`", where(hd))
     df = P.fn(Z + "deflate::deflate")
     if ck.anchor("fn deflate::deflate", df):
